@@ -190,6 +190,8 @@ class Interp:
     # -- helpers ---------------------------------------------------------------------------------
     def tick(self):
         self.steps += 1
+        if self.steps % 256 == 0:
+            sym.check_deadline()
         if self.steps > self.max_steps:
             raise BoundHit("steps")
 
